@@ -267,12 +267,53 @@ func ruleL2(r *core.Run) {
 	scope, rootNames := blockHookFuncs(r)
 	r.Notes = append(r.Notes, "L2 scope roots (no panic recovery above them): "+strings.Join(rootNames, ", "))
 	nDiv, nSub := 0, 0
+	// helpers outside the vocabulary are judged in the context of the known functions they were extracted from:
+	// operands are expressed in that function's vocabulary and a dominating comparison may sit in either
+	type l2frame struct {
+		anchor *ssa.Function
+		fr     frame
+	}
+	var work []l2frame
+	visited := map[*ssa.Function]bool{}
+	var late []*ssa.Function
 	for _, f := range r.P.SortedFuncs(scope) {
 		if r.P.IsGenerated(f) {
 			continue
 		}
-		res := r.Resolver(f)
-		ck := &guard.Checker{P: r.P, Fn: f, Res: res}
+		if r.P.Transparent(f) {
+			owned := false
+			for _, o := range r.Owners(f) {
+				if scope[o] {
+					owned = true
+				}
+			}
+			if owned {
+				late = append(late, f)
+				continue
+			}
+		}
+		for _, fr := range frames(r, f) {
+			if scope[fr.Fn] {
+				visited[fr.Fn] = true
+				work = append(work, l2frame{f, fr})
+			}
+		}
+	}
+	for _, f := range late {
+		if !visited[f] {
+			work = append(work, l2frame{f, frame{Fn: f}})
+		}
+	}
+	tidy := func(s string) string {
+		for strings.Contains(s, "~~") {
+			s = strings.ReplaceAll(s, "~~", "~")
+		}
+		return strings.ReplaceAll(s, "~&", "~")
+	}
+	for _, w := range work {
+		f := w.fr.Fn
+		fr := w.fr
+		ck := frameChecker(r, w.anchor, fr.Chain, len(fr.Chain))
 		seen := map[string]int{}
 		for _, b := range f.Blocks {
 			for _, ins := range b.Instrs {
@@ -288,24 +329,24 @@ func ruleL2(r *core.Run) {
 						continue
 					}
 					nDiv++
-					dT := res.Of(x.Y).String()
+					dT := tidy(fr.Raw(r, x.Y))
 					slot := "int" + x.Op.String() + ":" + dT
 					seen[slot]++
-					key := core.Key("L2-div", r.KeyName(f), slot)
+					key := core.Key("L2-div", r.P.Name(w.anchor), slot)
 					checkDivisor(r, ck, key, x.Pos(), b, dT, "integer "+x.Op.String())
 				case ssa.CallInstruction:
 					cc := x.Common()
 					name, _ := term.CalleeName(r.P, cc)
 					if d, ok := divisorOf(name, cc); ok {
 						nDiv++
-						dT := res.Of(d).String()
-						key := core.Key("L2-div", r.KeyName(f), name+":"+dT)
+						dT := tidy(fr.Raw(r, d))
+						key := core.Key("L2-div", r.P.Name(w.anchor), name+":"+dT)
 						checkDivisor(r, ck, key, x.Pos(), b, dT, name)
 					}
 					if a, bb, ok := subOperands(name, cc); ok {
 						nSub++
-						aT, bT := res.Of(a).String(), res.Of(bb).String()
-						key := core.Key("L2-sub", r.KeyName(f), name+":"+aT+" - "+shorten(bT))
+						aT, bT := tidy(fr.Raw(r, a)), tidy(fr.Raw(r, bb))
+						key := core.Key("L2-sub", r.P.Name(w.anchor), name+":"+aT+" - "+shorten(bT))
 						ea, eb := guard.Exact(aT), guard.Exact(bT)
 						atoms := []guard.Atom{
 							guard.True("sdk.Coin.IsGTE(" + ea + "," + eb + ")"),
@@ -317,7 +358,7 @@ func ruleL2(r *core.Run) {
 							guard.True("math.Int.GTE(" + ea + ".Amount," + eb + ".Amount)"),
 							guard.False("math.Int.LT(" + ea + ".Amount," + eb + ".Amount)"),
 						}
-						if ok, _ := ck.MustPass(b, atoms); ok {
+						if ok, _ := mustPassDeep(r, w.anchor, effSite{Ins: x, Chain: fr.Chain}, atoms); ok {
 							r.Discharge("L2-sub", key, r.P.Pos(x.Pos()), name+" dominated by a comparison of the same operands")
 						} else if af1(aT, bT) {
 							r.Assume("A-nonneg: the record fields Size_, Duration, Replica, UnitPrice are non-negative (used by arithmetic form AF1: x.Sub(trunc(dec(x) − y)) with y a product of such fields cannot go negative)")
